@@ -250,6 +250,17 @@ pub fn cache_cases(rng: &mut Rng, thorough: bool) -> Vec<RsCase> {
             })
             .collect(),
     };
+    // (0) constructors whose entries are computed from the input and from calls on it, on a ruleset that has evaluated another
+    //     input before (rs.rs evaluates a decoy input first): nothing of that earlier evaluation may be observed
+    for cacheable in [true, false] {
+        let rules = vec![
+            Expr::Vec(vec![mk_bin("add", call("h", reff("x")), lit(Value::Int(1))), reff("x")]),
+            emap(vec![("a", mk_bin("mult", reff("x"), lit(Value::Int(2)))), ("b", call("h", Expr::Vec(vec![reff("x")])))]),
+            Expr::Vec(vec![lit(Value::Int(0)), mk_bin("sub", reff("x"), lit(Value::Int(1)))]),
+            mk_bin("add", reff("x"), lit(Value::Int(1))),
+        ];
+        out.push(RsCase { tag: "constructors-over-input".into(), rules, facts: map(&[("x", Value::Int(5))]), env: mk_env([cacheable, cacheable, false], [0, 0, 0], &[vec![], vec![], vec![]]), evals: 2 });
+    }
     // (a) designed: one cacheable counting function, every pair of arguments (same / similar), twice each, 3 evaluations
     for a in &args {
         for b in &args {
@@ -403,6 +414,11 @@ pub fn rule_kinds() -> Vec<(&'static str, Expr)> {
         ("ok-fn-d1.00", call("g", lit(d(100, 2)))),
         ("ok-fn-+0", call("g", lit(Value::Float(0.0)))),
         ("ok-fn--0", call("g", lit(Value::Float(-0.0)))),
+        // list / map constructors whose entries are computed from the input (a ruleset is evaluated on many inputs: what a
+        // rule yields for one input is not what it yields for the next)
+        ("ok-list-of-input", Expr::Vec(vec![mk_bin("sub", reff("x"), lit(Value::Int(1))), mk_bin("add", reff("x"), lit(Value::Int(1)))])),
+        ("ok-map-of-input", emap(vec![("total", mk_bin("mult", reff("x"), lit(Value::Int(2)))), ("unit", lit(s("EUR")))])),
+        ("ok-list-of-fn", Expr::Vec(vec![lit(Value::Int(0)), mk_bin("add", call("g", reff("x")), lit(Value::Int(1)))])),
     ]
 }
 
